@@ -25,6 +25,16 @@ pub enum Step {
     Reload,
     DropWriter,
     NewWriter,
+    /// delete_all_documents
+    DeleteAll,
+    /// from here on the writer (and every later writer of the driver) merges eagerly: the policy proposes
+    /// to merge all the segments it is shown as soon as there are two
+    EagerOn,
+    /// prepare_commit (which flushes, and so consults the merge policy), wait until a policy-driven merge
+    /// has been published (bounded), then abort the prepared commit
+    PrepareWaitAbort,
+    /// the same, then commit the prepared commit
+    PrepareWaitCommit,
 }
 
 #[derive(Clone, Debug, Serialize, Deserialize, PartialEq, Eq, Hash)]
@@ -86,6 +96,7 @@ pub struct Driver {
     pub first_error_at: Option<usize>,
     /// (opstamp returned, payload) of the last commit that returned Ok
     pub last_commit: Option<(u64, Option<String>)>,
+    pub eager: bool,
 }
 
 pub fn writer_options(cfg: &WlConfig) -> IndexWriterOptions {
@@ -137,7 +148,7 @@ pub fn read_ids_of(index: &Index) -> Result<BTreeSet<u64>, String> {
 
 impl Driver {
     pub fn new(sim: SimDirectory, cfg: &WlConfig) -> Driver {
-        Driver { sim, real_dir: None, index: None, writer: None, reader: None, cfg: cfg.clone(), model: Model { history: vec![BTreeSet::new()], ..Default::default() }, calls: vec![], attempted: None, first_error_at: None, last_commit: None }
+        Driver { sim, real_dir: None, index: None, writer: None, reader: None, cfg: cfg.clone(), model: Model { history: vec![BTreeSet::new()], ..Default::default() }, calls: vec![], attempted: None, first_error_at: None, last_commit: None, eager: false }
     }
 
     /// index creation (W1): returns Err text on failure
@@ -255,12 +266,60 @@ impl Driver {
                 self.writer = None;
                 Ok(())
             }
+            Step::DeleteAll => match self.writer.as_mut() {
+                Some(w) => w.delete_all_documents().map(|_| ()).map_err(|e| format!("{e:?}")),
+                None => Err("no writer".into()),
+            },
+            Step::EagerOn => match self.writer.as_ref() {
+                Some(w) => {
+                    self.eager = true;
+                    w.set_merge_policy(Box::new(crate::hist::EagerMergePolicy));
+                    Ok(())
+                }
+                None => Err("no writer".into()),
+            },
+            Step::PrepareWaitAbort | Step::PrepareWaitCommit => match (self.writer.as_mut(), self.index.as_ref()) {
+                (Some(w), Some(index)) => {
+                    let before = index.searchable_segment_ids().map(|v| v.len()).unwrap_or(0);
+                    self.attempted = Some(self.model.working.clone());
+                    match w.prepare_commit() {
+                        Ok(pc) => {
+                            // a merge of the committed segments proposed by the policy is published by
+                            // its end_merge: the committed segment list on storage shrinks
+                            let t0 = std::time::Instant::now();
+                            while before >= 2 && t0.elapsed() < std::time::Duration::from_millis(2000) {
+                                if index.searchable_segment_ids().map(|v| v.len()).unwrap_or(before) < before {
+                                    break;
+                                }
+                                std::thread::sleep(std::time::Duration::from_millis(2));
+                            }
+                            if s == Step::PrepareWaitAbort {
+                                pc.abort().map(|_| ()).map_err(|e| format!("{e:?}"))
+                            } else {
+                                match pc.commit() {
+                                    Ok(o) => {
+                                        self.last_commit = Some((o, None));
+                                        Ok(())
+                                    }
+                                    Err(e) => Err(format!("{e:?}")),
+                                }
+                            }
+                        }
+                        Err(e) => Err(format!("{e:?}")),
+                    }
+                }
+                _ => Err("no writer".into()),
+            },
             Step::NewWriter => {
                 self.writer = None;
                 match self.index.as_ref() {
                     Some(index) => match index.writer_with_options::<TantivyDocument>(writer_options(&self.cfg)) {
                         Ok(w) => {
-                            w.set_merge_policy(Box::new(NoMergePolicy));
+                            if self.eager {
+                                w.set_merge_policy(Box::new(crate::hist::EagerMergePolicy));
+                            } else {
+                                w.set_merge_policy(Box::new(NoMergePolicy));
+                            }
                             self.writer = Some(w);
                             Ok(())
                         }
@@ -280,7 +339,14 @@ impl Driver {
             (Step::DelId(id), true) => {
                 self.model.working.remove(&id);
             }
-            (Step::Commit | Step::CommitPayload, true) => {
+            (Step::DeleteAll, true) => {
+                self.model.working.clear();
+            }
+            (Step::PrepareWaitAbort, true) => {
+                self.model.working = self.model.committed.clone();
+                self.attempted = None;
+            }
+            (Step::Commit | Step::CommitPayload | Step::PrepareWaitCommit, true) => {
                 self.model.committed = self.model.working.clone();
                 self.model.history.push(self.model.committed.clone());
                 self.attempted = None;
